@@ -304,7 +304,7 @@ func lookalikes() {
 		{0xF7, 0x3C, 0x40},                          // escape carrying data bytes
 		{0xF0, 0x93, 0x3C, 0x40, 0xF7},              // sysex whose payload looks like a note-on
 		{0xF0, 0xF7},                                // empty sysex
-		smf.MetaText("\x91\x3C\x40"),               // text made of a note-on
+		smf.MetaText("\x91\x3C\x40"),                // text made of a note-on
 		smf.MetaUndefined(0x11, []byte{0x95, 1, 2}), // unknown meta with a status-like payload
 		smf.MetaSequencerData([]byte{0xB3, 7, 100}), // sequencer data that looks like a controller
 		smf.MetaChannel(7), smf.MetaPort(3),
